@@ -686,6 +686,7 @@ class Mir:
             if prev is None or len(names) > len(prev):
                 self.struct_fields[tyname] = names
         # enums from source
+        self.enum_discr = {}
         self.enums = {
             "Option": ["None", "Some"],
             "Result": ["Ok", "Err"],
@@ -707,11 +708,20 @@ class Mir:
                     body = re.sub(r"//[^\n]*", "", body)
                     body = re.sub(r"#\[[^\]]*\]", "", body, flags=re.S)
                     vs = []
+                    ds = []
+                    nxt = 0
                     for part in split_top(body):
                         mm = re.match(r"^\s*(\w+)", part)
                         if mm:
                             vs.append(mm.group(1))
-                    self.enums.setdefault(name, vs)
+                            md = re.match(r"^\s*\w+\s*=\s*(-?\d+)\s*$", part)
+                            if md:
+                                nxt = int(md.group(1))
+                            ds.append(nxt)
+                            nxt += 1
+                    if name not in self.enums:
+                        self.enums[name] = vs
+                        self.enum_discr[name] = ds
 
     def field_index(self, ty, name):
         return self.struct_fields[ty].index(name)
@@ -752,6 +762,8 @@ class Mir:
                             return n
                 if dflt:
                     return dflt[0]
+                if cands:
+                    return cands[0][1]
                 return None
             if len(cands) >= 1:
                 inh = [n for (t, n) in cands if t is None]
